@@ -1,6 +1,7 @@
 import GormModel.Drv.Util
 import GormModel.Model.SoftDeleteMode
 import GormModel.Model.AssocScope
+import GormModel.Model.PreloadAssign
 open Lean
 namespace Gorm.Drv
 
@@ -14,7 +15,10 @@ def softModeJ (m : SoftMode.Mode) : Json :=
     text `tag`, which `now.Parse` accepts iff `parseOk`: the mode of the live-row filter on the query / update / delete path
     (`SoftMode.filterModeNow (tagMode present parseOk tag)`), as
     `{"query": {"valid","zero","text"}, "update": {…}, "delete": {…}}`.
-    `["c08.chain", propagate, u, steps]` — `AssocScope.finisherUnscoped` (tie suite `chain.tie`). -/
+    `["c08.chain", propagate, u, steps]` — `AssocScope.finisherUnscoped` (tie suite `chain.tie`).
+    `["c08.preloadAssign", destKind ("struct" | "slice"), relKind ("hasone" | "hasmany" | "belongsto" | "m2m"), old, fetched]` —
+    `PreloadAssign.preloadField` over the regenerated clean-up arms: the keys a relation field shows after preload() when it held
+    `old` and the child query returned `fetched` for this parent; `["c08.joinsAssign", old, fetched]` — `joinsAssign` (tie suite `dest.tie`). -/
 def handleC08 (op : String) (args : Array Json) : Option Json := do
   match op with
   | "c08.mode" =>
@@ -33,6 +37,25 @@ def handleC08 (op : String) (args : Array Json) : Option Json := do
     let steps ← jArr? (arg args 3)
     let chain ← steps.toList.mapM jStr?
     some (Json.bool (AssocScope.finisherUnscoped propagate u chain))
+  | "c08.preloadAssign" =>
+    let dk ← (match (arg args 1).getStr?.toOption with
+      | some "struct" => some PreloadAssign.DestKind.struct
+      | some "slice" => some PreloadAssign.DestKind.slice
+      | _ => none)
+    let k ← (match (arg args 2).getStr?.toOption with
+      | some "hasone" => some PreloadAssign.RelKind.hasOne
+      | some "hasmany" => some PreloadAssign.RelKind.hasMany
+      | some "belongsto" => some PreloadAssign.RelKind.belongsTo
+      | some "m2m" => some PreloadAssign.RelKind.many2Many
+      | _ => none)
+    let old ← (← jArr? (arg args 3)).toList.mapM jNat?
+    let fetched ← (← jArr? (arg args 4)).toList.mapM jNat?
+    some (natListJ (PreloadAssign.preloadField Gen.preloadResetArms Gen.preloadResetBeforeAssign dk k 1 old
+      (fetched.map (fun r => (1, r)))))
+  | "c08.joinsAssign" =>
+    let old ← (← jArr? (arg args 1)).toList.mapM jNat?
+    let fetched ← (← jArr? (arg args 2)).toList.mapM jNat?
+    some (natListJ (PreloadAssign.joinsAssign old fetched.head?))
   | _ => none
 
 end Gorm.Drv
